@@ -330,6 +330,15 @@ def stdlib_axioms(formulas):
                 ax.append(e == json_loads(b))
             if z3.is_app(a) and a.decl().name() == "json_dumps":
                 ax.append(e == a.children()[0])
+        if nm == "bytes_encode":
+            t = e.children()[0]
+            if z3.is_app(t) and t.decl().name() == "json_dumps":
+                v = t.children()[0]
+                # the blob of a value decodes to that value, through either decoding route
+                ax.append(json_loads(bytes_decode(e)) == v)
+                ax.append(json_loads(e) == v)
+                ax.append(F("json_valid", Val, BoolS)(e))
+                ax.append(F("json_valid", Val, BoolS)(bytes_decode(e)))
         if nm == "bytes_decode":
             a = e.children()[0]
             if z3.is_app(a) and a.decl().name() == "bytes_encode":
